@@ -695,6 +695,8 @@ def run(c, facts):
     c.shared(R12, _c13.r4_err_disc, 'C13.R4', facts)
     c.shared(R12, _c15.r6_doc_sync, 'C15.R6', facts)
     c.run(r10_locator_identity, facts)
+    import c07 as _c07p
+    c.run(lambda c: _c07p.pipeline_whole(c, facts, rule='C10.R15'))      # compiled exactly once means compiled: compile() runs every phase for every module, whatever it contains (a module of `use` statements only has clashing imports to report)
     R13 = c.rule('C10.R13', 'ERRORS-KEPT: a cycle or a missing import reported by the load of one folder is still pending when the diagnostics are published - the pending errors are emptied by diagnostics() alone (shared with C15.R3)')
     c.shared(R13, _c15.r3_reset_all, 'C15.R3', facts)
     import inferrules as _I10
